@@ -90,6 +90,22 @@ class C04(TraceCheck):
                                         {"k": "assign", "r0": r0, "r1": r1, "c0": c0, "c1": c1, "block": b,
                                          "bk": "fsarray" if (r0 + c1 + len(b)) % 4 == 0 else "list", "form": "slice2"},
                                         {"k": "read", "r0": 0, "r1": h + 3, "c0": 0, "c1": w}]}
+        # fsarray(strings, width) construction and whole-row reads
+        for k in range(300 if tier == "quick" else 6000):
+            w = rng.randrange(0, 5)
+            vals = rowvals(max(1, w))
+            strings = [rng.choice(vals) for _ in range(rng.randrange(0, 4))]
+            mx = max([sum(len(t) for t, _ in s_["v"]) for s_ in strings] + [0])
+            width = rng.choice([-1, mx, mx + 1, max(0, mx - 1), w])
+            steps = [{"k": "make", "strings": strings, "width": width, "fmt": k % 2}]
+            yield {"h": 1, "w": 1, "fmt": 0, "steps": steps}
+        for k in range(200 if tier == "quick" else 4000):
+            h, w = rng.randrange(1, 4), rng.randrange(1, 5)
+            vals = rowvals(w)
+            b = [rng.choice([v for v in vals if sum(len(t) for t, _ in v["v"]) <= w]) for _ in range(h)]
+            yield {"h": h, "w": w, "fmt": k % 2, "steps": [
+                {"k": "assign", "r0": 0, "r1": h, "c0": 0, "c1": w, "block": b, "bk": "list", "form": "slice2"}] +
+                [{"k": "rowread", "r": r} for r in range(h)]}
         # random histories with all three forms
         for k in range(1200 if tier == "quick" else 40000):
             h, w = rng.randrange(0, 4), rng.randrange(0, 5)
@@ -154,6 +170,29 @@ class C04(TraceCheck):
                         a[st["r0"]:st["r1"]] = block
                     else:
                         a[st["r0"]:st["r1"], st["c0"]:st["c1"]] = block
+                except Exception as e:  # noqa
+                    rec["exc"] = enc.exc_name(e)
+                rec["rows"] = snap()
+            elif st["k"] == "make":
+                strings = [enc.build_value(x) for x in st["strings"]]
+                mkw = {"bg": "blue"} if st.get("fmt") else {}
+                rec["rows"], rec["ncols"] = [], 0
+                try:
+                    arr = fsarray(strings, None if st["width"] == -1 else st["width"], **mkw)
+                    rec["rows"] = [enc.enc_fmtstr(r) for r in arr.rows]
+                    rec["ncols"] = arr.width
+                    if arr.shape != (len(arr.rows), arr.width) or arr.height != len(arr.rows):
+                        rec["exc"] = "ShapeInconsistent"
+                except Exception as e:  # noqa
+                    rec["exc"] = enc.exc_name(e)
+                if st.get("fmt"):
+                    # constructor formatting applies to plain str items (documented fmtstr(s, *args, **kwargs));
+                    # the statement only says rows show the strings: log what was asked, with that formatting
+                    rec["strings"] = [x if x["k"] == "f" else enc.enc_value(__import__("curtsies").fmtstr(enc.build_value(x), **mkw)) for x in st["strings"]]
+            elif st["k"] == "rowread":
+                rec["got"] = []
+                try:
+                    rec["got"] = enc.enc_fmtstr(a[st["r"]])
                 except Exception as e:  # noqa
                     rec["exc"] = enc.exc_name(e)
                 rec["rows"] = snap()
